@@ -258,15 +258,19 @@ class Assembler:
         counter = [0]
         # statements that start directly inside a `for` loop body: token index -> index of the loop's closing brace
         starts = {}
-        for (kw, kopen) in fp.loops():
-            if not s.is_id(kw, 'for'):
-                continue
+
+        def collect(kopen):
+            # statement starts directly inside the block opened at kopen; then, if the block's LAST statement is an
+            # `if` / `if let` chain that ends at the block's end, its branch blocks are in tail position of the loop body as
+            # well (nothing follows them in the iteration), so a `continue` there is also "skip the rest of this block"
             kclose = m[kopen]
             q = kopen + 1
             at_start = True
+            last = None
             while q < kclose:
                 if at_start:
                     starts[q] = kclose
+                    last = q
                     at_start = False
                 if s.kind(q) == 'p':
                     c = s.s(q)
@@ -278,6 +282,33 @@ class Assembler:
                     elif c == ';':
                         at_start = True
                 q += 1
+            if last is not None and s.is_id(last, 'if'):
+                blocks = []
+                j = last
+                while True:
+                    j += 1
+                    while j < kclose and not s.is_p(j, '{'):
+                        if s.kind(j) == 'p' and s.s(j) in '([':
+                            j = m[j]
+                        j += 1
+                    if j >= kclose:
+                        return
+                    blocks.append(j)
+                    j = m[j]
+                    if s.is_id(j + 1, 'else'):
+                        j += 1
+                        if s.is_id(j + 1, 'if'):
+                            j += 1
+                        continue
+                    break
+                if j + 1 == kclose:
+                    for b in blocks:
+                        collect(b)
+
+        for (kw, kopen) in fp.loops():
+            if not s.is_id(kw, 'for'):
+                continue
+            collect(kopen)
         if not hasattr(self, '_for_body_stmt_starts'):
             self._for_body_stmt_starts = {}
         self._for_body_stmt_starts[id(fp)] = starts
